@@ -41,8 +41,16 @@ func fixedScalar(tag byte) []byte {
 	return b
 }
 
-var digest1 = bytes.Repeat([]byte{0x11}, 32)
-var digest2 = bytes.Repeat([]byte{0x22}, 32)
+// spare gives a slice that several threads pass to the library at once 64 bytes of spare capacity: a callee that
+// appends to an argument "in place" then writes into memory all threads share, which the race detector sees.
+func spare(b []byte) []byte {
+	r := make([]byte, len(b), len(b)+64)
+	copy(r, b)
+	return r
+}
+
+var digest1 = spare(bytes.Repeat([]byte{0x11}, 32))
+var digest2 = spare(bytes.Repeat([]byte{0x22}, 32))
 
 // ---- S1 / S2: sm2.PrivateKey (lazily cached inverse of d+1)
 
@@ -154,7 +162,7 @@ func s3() scenario {
 
 var s4Once sync.Once
 var s4MasterDER, s4Sig1, s4Sig2 []byte
-var s4UID = []byte("Alice")
+var s4UID = spare([]byte("Alice"))
 
 func s4() scenario {
 	return scenario{name: "S4-sm9-sign-master", setup: func() *inst {
